@@ -74,6 +74,7 @@ type Stats struct {
 	Note        string         `json:"note,omitempty"`
 	Cases       int64          `json:"input_cases_inside_executions,omitempty"`
 	MaxDepth    int            `json:"max_choice_depth"`
+	Stalls      int            `json:"worker_stalls_not_reproduced,omitempty"` // workers that stopped for the watchdog period but whose execution ran to its end when repeated
 	fpSet       map[uint64]struct{}
 	shardStates int64
 	outcomeSeen map[uint64]struct{}
@@ -424,6 +425,26 @@ func hangFound(sc *Scenario, below []int, rest string) Found {
 	return Found{Scenario: sc.Name, Class: "HANG-OR-CRASH", Msg: fmt.Sprintf("worker died exploring below prefix %v: %s", below, rest), Choices: below}
 }
 
+// confirmHang re-runs the execution a dead worker was in (its choice prefix, then default choices)
+// in a fresh worker, once. A loop that never blocks is deterministic and hangs again; a worker that
+// was starved by the machine or stopped from outside is not. Only a confirmed hang is a finding.
+func confirmHang(sc *Scenario, selfArgs []string, rest string) (Found, bool) {
+	f := hangFound(sc, nil, rest)
+	if !strings.Contains(f.Class, ":hang:") {
+		return f, true // a crash (no MC-HANG line): reported as it is
+	}
+	w, err := startWorker(selfArgs, 1)
+	if err != nil {
+		return f, true
+	}
+	_, died, rest2 := w.call(taskMsg{Scenario: sc.Name, Prefix: f.Choices})
+	if died {
+		return hangFound(sc, f.Choices, rest2), true
+	}
+	w.stop()
+	return f, false
+}
+
 // Explore runs one scenario completely. The supervising process never executes scenario code:
 // the determinism guard, the frontier expansion and the subtrees all run in worker processes, so
 // code under test that loops without yielding, or crashes the runtime, becomes a finding.
@@ -444,6 +465,14 @@ func Explore(sc *Scenario, workers int, deadline time.Time, selfArgs []string) *
 		return st
 	}
 	line, died, rest := w0.call(taskMsg{Scenario: sc.Name, Expand: target})
+	if died {
+		if _, confirmed := confirmHang(sc, selfArgs, rest); !confirmed {
+			st.Stalls++
+			if w0, err = startWorker(selfArgs, 0); err == nil {
+				line, died, rest = w0.call(taskMsg{Scenario: sc.Name, Expand: target})
+			}
+		}
+	}
 	if died {
 		f := hangFound(sc, nil, rest)
 		st.Found = append(st.Found, f)
@@ -522,6 +551,19 @@ func Explore(sc *Scenario, workers int, deadline time.Time, selfArgs []string) *
 					dl = deadline.UnixMilli()
 				}
 				line, died, rest := wk.call(taskMsg{Scenario: sc.Name, Prefix: p, Deadline: dl})
+				for retry := 0; died && retry < 2; retry++ {
+					if _, confirmed := confirmHang(sc, selfArgs, rest); confirmed {
+						break
+					}
+					// not reproduced: the worker was stalled, not the code; redo the subtree
+					mu.Lock()
+					st.Stalls++
+					mu.Unlock()
+					if wk, err = startWorker(selfArgs, perWorkerCap); err != nil {
+						return
+					}
+					line, died, rest = wk.call(taskMsg{Scenario: sc.Name, Prefix: p, Deadline: dl})
+				}
 				if died {
 					f := hangFound(sc, p, rest)
 					mu.Lock()
